@@ -25,6 +25,8 @@ pub type Events = Vec<(EventTypeIdentifier, Vec<u8>)>;
 pub struct BaseState {
     pub db: InMemorySubstateDatabase,
     pub events: Vec<Events>,
+    /// components of the pre-published royalties package (empty if publishing failed)
+    pub royalty_components: Vec<ComponentAddress>,
 }
 
 static BASE: OnceLock<BaseState> = OnceLock::new();
@@ -49,9 +51,60 @@ pub fn base_state() -> &'static BaseState {
         ProtocolBuilder::for_simulator()
             .from_bootstrap_to_latest()
             .commit_each_protocol_update_advanced(&mut db, &mut hooks, &vm);
+        // infrastructure for royalty flows: the repository's prebuilt `royalties` package (the one its
+        // own scenarios publish) with three components (no / XRD / USD component royalties)
+        let validator = TransactionValidator::new(&db, &network());
+        let mut node = Node { db, vm: VmModules::default(), validator, events: hooks.events, nonce: 100, free_credit_used: false, commits: 0 };
+        let mut royalty_components = vec![];
+        let mut run = |node: &mut Node, m: TransactionManifestV1| -> Option<TransactionReceipt> {
+            let nonce = node.next_nonce();
+            let exe = TxSpec::new(m, nonce, btreeset![]).build(&node.validator).ok()?;
+            let r = node.execute(&exe, &ExecOpts::default()).ok()?;
+            node.commit(&r);
+            Some(r)
+        };
+        let code = include_bytes!("/repo/radix-transaction-scenarios/assets/royalties.wasm").to_vec();
+        let definition: Option<radix_engine_interface::blueprints::package::PackageDefinition> = manifest_decode::<radix_engine::blueprints::package::ManifestPackageDefinition>(include_bytes!("/repo/radix-transaction-scenarios/assets/royalties.rpd"))
+            .ok()
+            .and_then(|d| d.try_into_typed().ok());
+        if let Some(definition) = definition {
+            let m = ManifestBuilder::new().lock_fee_from_faucet().publish_package_advanced(None, code, definition, MetadataInit::default(), OwnerRole::None).build();
+            let pkg = run(&mut node, m).and_then(|r| match &r.result {
+                TransactionResult::Commit(c) => c.new_package_addresses().first().copied(),
+                _ => None,
+            });
+            if let Some(pkg) = pkg {
+                let m = ManifestBuilder::new()
+                    .lock_fee_from_faucet()
+                    .call_function(pkg, "RoyaltiesBp", "new", manifest_args!())
+                    .call_function(pkg, "RoyaltiesBp", "new", manifest_args!())
+                    .call_function(pkg, "RoyaltiesBp", "new", manifest_args!())
+                    .build();
+                if let Some(r) = run(&mut node, m) {
+                    if let TransactionResult::Commit(c) = &r.result {
+                        royalty_components = c.new_component_addresses().iter().copied().collect();
+                    }
+                }
+                if royalty_components.len() == 3 {
+                    let mut b = ManifestBuilder::new().lock_fee_from_faucet();
+                    for (i, comp) in royalty_components.iter().enumerate() {
+                        for (j, method) in ["method_with_no_package_royalty", "method_with_xrd_package_royalty", "method_with_usd_package_royalty"].iter().enumerate() {
+                            let amount = match i {
+                                0 => RoyaltyAmount::Free,
+                                1 => RoyaltyAmount::Xrd(Decimal::from(17u32 + j as u32)),
+                                _ => RoyaltyAmount::Usd(Decimal::from(2u32 + j as u32)),
+                            };
+                            b = b.set_component_royalty(*comp, *method, amount);
+                        }
+                    }
+                    run(&mut node, b.build());
+                }
+            }
+        }
         BaseState {
-            db,
-            events: hooks.events,
+            db: node.db,
+            events: node.events,
+            royalty_components,
         }
     })
 }
